@@ -140,6 +140,9 @@ def build(rnd, pack, dcls):
         elif ctx == 'mathtext':
             # text mode inside maths: not judged for names (statement is silent) -> only declared names
             parts.append('$a \\mbox{w \\LaTeX{} w} b$')
+            if not pkgset(pack) & {'amsmath', 'mathtools'}:
+                # without amsmath, \text is one more unknown name inside maths, and so is all of its argument
+                parts.append('$y \\text{ for all ' + use(n) + '}$')
         elif ctx == 'comment':
             parts.append('w %' + use(n).replace('\n', ' ') + ' \\begin{zcommentenv}\nw')
         elif ctx == 'skip':
